@@ -16,6 +16,16 @@ CHECKS = {
     },
 }
 
+CHECKS['C15'] = {
+    'level': 'proof',
+    'technique': 'deductive verification: VCs over z3 sequences (exact python slice / floor-division semantics) from the real source; bounded run-time contract as cross-check',
+    'text': ('find_best_overlap and merge_transcriptions_and_logits are proved against their contracts for every list of parts: overlap in '
+             '[0, min], per-step relation acc[:|acc|-ceil(o/2)] ++ t[floor(o/2):], length = sum of parts - sum of overlaps, one logits row per '
+             'character; o = 0 is plain concatenation (54 obligations).'),
+    'note': ('Trusted: pyvc generator; strings as z3 Seq of opaque symbols, logits as z3 Seq of opaque rows (np.concatenate axis 0 = Concat, row '
+             'slicing = SubSeq); callee contract of levenshtein_distance (result >= 0) proved under C13. Window splitting in process_lines is not under contract.'),
+}
+
 NOT_APPLICABLE = {
     'C20': ('equality up to round-off of float tensors produced by torch C++ kernels through module-resident caches across calls: no contract '
             'within reach can state it over reals, no finite domain makes a bounded check exhaustive; a random differential test would be a different technique (DESIGN.md §6)'),
